@@ -379,6 +379,71 @@ func runC19(c *fw.Ctx) {
 			}
 		}
 	}
+	// one long-lived object that has served paths is given trees of other sizes (smaller, larger, the same depth and
+	// another depth) through ComputeTree and SetTree; every time its paths by index and by leaf must prove the new tree;
+	// by-leaf lookups also walk the leaves downwards (the leaf before the previous hit)
+	if n >= 2 {
+		var z util.MerkleTree
+		z.ComputeTree(leaves)
+		_ = z.GetPathByIndex(n - 1)
+		_ = z.GetPath(leaves[n/2])
+		sizes := []int{n - 1, n, (n + 1) / 2, 1}
+		if n > 3 {
+			sizes = append(sizes, n-2, n-1-c.Rng.Intn(n/2))
+		}
+		for si, k := range sizes {
+			if k < 1 {
+				continue
+			}
+			sub, subS := leavesB[:k], lsB[:k]
+			var fresh2 util.MerkleTree
+			fresh2.ComputeTree(sub)
+			if si%2 == 0 {
+				z.ComputeTree(sub)
+			} else if err := z.SetTree(k, append([]string(nil), fresh2.GetTree()...)); err != nil {
+				c.Violate("", "n=%d: SetTree(%d, ...) into a used object failed: %v", n, k, err)
+				break
+			}
+			wantRoot := refMerkleRoot(subS)
+			if z.GetRoot() != wantRoot {
+				c.Violate("", "n=%d: a used object given a tree of %d leaves reports root %s, reference %s", n, k, z.GetRoot(), wantRoot)
+				break
+			}
+			idxs := []int{k - 1, 0, k / 2}
+			if k > 2 {
+				idxs = append(idxs, k-2, c.Rng.Intn(k))
+			}
+			bad := false
+			for _, i := range idxs { // includes a downward step k-1 -> ... -> k-2
+				p := z.GetPathByIndex(i)
+				if p == nil || p.LeafIndex != i || !refVerify(subS[i], p.Nodes, i, wantRoot) {
+					c.Violate("", "n=%d: a used object given a tree of %d leaves: GetPathByIndex(%d) does not prove that leaf", n, k, i)
+					bad = true
+					break
+				}
+				pl := z.GetPath(sub[i])
+				if pl == nil || pl.LeafIndex != i || !refVerify(subS[i], pl.Nodes, i, wantRoot) {
+					c.Violate("", "n=%d: a used object given a tree of %d leaves: GetPath(leaf %d) does not prove that leaf (lookups so far went %v)", n, k, i, idxs)
+					bad = true
+					break
+				}
+				c.Count("resized_object_paths", 2)
+			}
+			if bad {
+				break
+			}
+		}
+		// a downward walk over the leaves of the original tree
+		var dw util.MerkleTree
+		dw.ComputeTree(leaves)
+		for i := n - 1; i >= 0 && i >= n-40; i-- {
+			if pl := dw.GetPath(leaves[i]); pl == nil || pl.LeafIndex != i {
+				c.Violate("", "n=%d: GetPath(leaf %d) during a downward walk returned %v", n, i, pl)
+				break
+			}
+			c.Count("downward_lookups", 1)
+		}
+	}
 	if n == 1 || n == 2 || n == 3 || n == 1000 {
 		c.Sample(map[string]any{"n": n, "root": root, "path_of_last_leaf": mt.GetPathByIndex(n - 1)})
 	}
@@ -402,12 +467,12 @@ func init() {
 		Level:        "exploration",
 		Rule: "one case per leaf count n=1..N (N=1024 quick, 4096 thorough) plus 64 larger sizes N+1+63k (every residue modulo 16) with distinct leaf hashes derived from (seed,n,i), all of one width per tree (64 hex characters; for every fourth n one of 1, 8, 40, 63, 65, 96, 128, 200 characters); every leaf index i is exercised: " +
 			"path by index and by leaf lookup must verify against GetRoot() (library verifier and an independent one), root must equal an independent pairwise/duplicate-last reference, " +
-			"the same path must not verify for other leaves (all others for n<=64; neighbours, sibling, last leaves, 3 random and a one-nibble mutation above), export/import must reproduce root and paths; a different tree (rotated leaves plus one new leaf) is then loaded with SetTree / re-computed with ComputeTree into the objects that already served lookups and its by-leaf and by-index paths must prove the new leaves only; returned paths are edited/appended to by the harness and the tree re-verified; every 16th size also computes independent trees in 4 concurrent goroutines and compares with the sequential roots; a tree loaded from GetTree() without copying must be unaffected by the exporter computing other trees, and by SetTree calls on itself that are rejected for a wrong size. " +
+			"the same path must not verify for other leaves (all others for n<=64; neighbours, sibling, last leaves, 3 random and a one-nibble mutation above), export/import must reproduce root and paths; a different tree (rotated leaves plus one new leaf) is then loaded with SetTree / re-computed with ComputeTree into the objects that already served lookups and its by-leaf and by-index paths must prove the new leaves only; returned paths are edited/appended to by the harness and the tree re-verified; one long-lived object that served lookups is then given trees of other sizes (smaller, same depth, other depth) through ComputeTree and SetTree and must prove each of them by index and by leaf; by-leaf lookups also walk the leaves downwards; every 16th size also computes independent trees in 4 concurrent goroutines and compares with the sequential roots; a tree loaded from GetTree() without copying must be unaffected by the exporter computing other trees, and by SetTree calls on itself that are rejected for a wrong size. " +
 			"distinct non-trivial = distinct (n,i) pairs whose path was produced and verified",
 		Cases:      c19Sizes,
 		Run:        runC19,
 		Exhaustive: func(string) bool { return true },
-		Floors:     map[string]int64{"trees": 1000, "trees_above_the_exhaustive_bound": 60, "trees_with_other_leaf_width": 250, "paths_verified": 500000, "other_leaf_rejections": 3000000, "settree_wrong_size_rejected": 1000, "reused_object_paths": 5000, "loaded_tree_paths_after_exporter_reuse": 3000, "paths_after_caller_edits": 3000, "concurrent_independent_tree_groups": 60},
+		Floors:     map[string]int64{"trees": 1000, "resized_object_paths": 20000, "downward_lookups": 20000, "trees_above_the_exhaustive_bound": 60, "trees_with_other_leaf_width": 250, "paths_verified": 500000, "other_leaf_rejections": 3000000, "settree_wrong_size_rejected": 1000, "reused_object_paths": 5000, "loaded_tree_paths_after_exporter_reuse": 3000, "paths_after_caller_edits": 3000, "concurrent_independent_tree_groups": 60},
 		Assumptions: []string{
 			"leaf hashes of one tree are distinct strings of one fixed width (64 hex in most trees, 1..200 characters in a quarter of them): the tree concatenates strings, so leaves of different widths within one tree are outside the property's domain",
 			"exhaustive over n<=N and all indices, not over all leaf values",
